@@ -216,7 +216,8 @@ class Tracer(object):
         """replace `provider.pre_transaction_lock` / `provider.transaction_lock` (instance attributes of SQLiteProvider)
         by recording wrappers around the same lock objects.  Lock events go into `events` as
         {'i': None, 'call': 'pre_acquire'|'pre_release'|'acquire'|'release', 'thread': ..., 'outcome': 'ok'|exception}
-        (an acquire is recorded when it RETURNS; `lock_waits` lists [thread, lock name] of acquires that are pending).
+        (an acquire is recorded when it RETURNS, a release right BEFORE the lock is released, so `events` is a faithful
+        linearisation of the lock operations; `lock_waits` lists [thread, 'acquire'|'pre_acquire'] of pending acquires).
         They do not consume DB-API call indices."""
         provider.pre_transaction_lock = TracedLock(self, provider.pre_transaction_lock, 'pre_')
         provider.transaction_lock = TracedLock(self, provider.transaction_lock, '')
@@ -281,18 +282,21 @@ class TracedLock(object):
               'thread': threading.current_thread().name, 'outcome': outcome, 'injected': False}
         with self.tracer._lock: self.tracer.events.append(ev)
         for h in list(self.tracer.after_call): h(ev)
+        return ev
     def acquire(self, *args, **kwargs):
         me = [threading.current_thread().name, self.prefix + 'acquire']
         self.tracer.lock_waits.append(me)
         try: r = self.lock.acquire(*args, **kwargs)
         finally: self.tracer.lock_waits.remove(me)
-        if r: self._record('acquire')
+        if r: self._record('acquire')          # recorded when the lock has been obtained
         return r
     def release(self):
+        # recorded BEFORE the lock is really released, so that the `acquire` event of the next holder can never
+        # overtake it in `events` (the global order of lock events is then a faithful linearisation)
+        ev = self._record('release')
         try: self.lock.release()
         except BaseException as e:
-            self._record('release', type(e).__name__); raise
-        self._record('release')
+            ev['outcome'] = type(e).__name__; raise
     def locked(self):
         return self.lock.locked()
     __enter__ = acquire
